@@ -40,8 +40,8 @@ impl<const N: usize, T: Send + Sync> ConIterOfArray<N, T> {
     }
 
     unsafe fn take_one(&self, item_idx: usize) -> T {
-        let array = &mut *self.array.get();
-        let src_ptr = array.as_mut_ptr().add(item_idx);
+        // raw pointer to the first element: concurrent callers must not create aliasing `&mut` references to the array
+        let src_ptr = (self.array.get() as *const T).add(item_idx);
 
         let mut value = MaybeUninit::<T>::uninit();
         let dst_ptr = value.as_mut_ptr();
@@ -55,11 +55,11 @@ impl<const N: usize, T: Send + Sync> ConIterOfArray<N, T> {
         begin_idx: usize,
         len: usize,
     ) -> impl ExactSizeIterator<Item = T> {
-        let array = &mut *self.array.get();
-        let end_idx = begin_idx.saturating_add(len).min(array.len());
+        let end_idx = begin_idx.saturating_add(len).min(N);
         let len = end_idx - begin_idx;
 
-        let ptr = array.as_mut_ptr().add(begin_idx);
+        // raw pointer to the first element: concurrent callers must not create aliasing `&mut` references to the array
+        let ptr = (self.array.get() as *mut T).add(begin_idx);
         let vec = Vec::from_raw_parts(ptr, len, 0);
         vec.into_iter()
     }
